@@ -16,6 +16,12 @@ def module(name, body, imports=""):
     return f"{name} DEFINITIONS AUTOMATIC TAGS ::= BEGIN\n{imports}\n{body}\nEND\n"
 
 
+ROOT_KINDS = ["BOOLEAN", "INTEGER (0..7)", "INTEGER", "ENUMERATED { ea, eb }", "NULL", "BIT STRING (SIZE(0..9))", "OCTET STRING",
+              "UTF8String", "IA5String (SIZE(0..4))", "NumericString", "PrintableString", "VisibleString",
+              "SEQUENCE OF BOOLEAN", "SET OF INTEGER (0..3)", "CHOICE { ca BOOLEAN, cb NULL }", "SEQUENCE { z BOOLEAN }",
+              "INTEGER (0..7,...)", "NumericString (SIZE(0..3,...))"]
+
+
 def leaf():
     d = []
     ints = [
@@ -134,13 +140,14 @@ def nested():
     d.append("DefX ::= SEQUENCE { a BOOLEAN, ..., b INTEGER (0..7) DEFAULT 3, c BOOLEAN DEFAULT TRUE, d IA5String (SIZE(0..3)) DEFAULT \"ab\" }")
     # a mandatory root component of every kind in front of the extension marker (each read_*/write_* counts
     # itself as a component of the enclosing extensible SEQUENCE / SET)
-    root_kinds = ["BOOLEAN", "INTEGER (0..7)", "INTEGER", "ENUMERATED { ea, eb }", "NULL", "BIT STRING (SIZE(0..9))", "OCTET STRING",
-                  "UTF8String", "IA5String (SIZE(0..4))", "NumericString", "PrintableString", "VisibleString",
-                  "SEQUENCE OF BOOLEAN", "SET OF INTEGER (0..3)", "CHOICE { ca BOOLEAN, cb NULL }", "SEQUENCE { z BOOLEAN }",
-                  "INTEGER (0..7,...)", "NumericString (SIZE(0..3,...))"]
+    root_kinds = ROOT_KINDS
     for i, k in enumerate(root_kinds):
         d.append(f"RootK{i} ::= SEQUENCE {{ x {k}, ..., y INTEGER (0..255) OPTIONAL, w BOOLEAN OPTIONAL }}")
         d.append(f"RootS{i} ::= SET {{ x {k}, ..., y INTEGER (0..255) OPTIONAL }}")
+    # an ENUMERATED DEFAULT whose item is renamed twice differently (a-b -> AB -> Ab) next to an item that has that
+    # second name: the DEFAULT constant names the declared item
+    d.append("ModeAb ::= ENUMERATED { ab, a-b, other, x-y-z, xyz }")
+    d.append("CfgAb ::= SEQUENCE { mode ModeAb DEFAULT a-b, deep ModeAb DEFAULT x-y-z, last BOOLEAN, ..., later ModeAb DEFAULT a-b }")
     # string DEFAULTs whose words are more than one blank apart (the parser rebuilds the literal from token columns)
     d.append("DefSp ::= SEQUENCE { a BOOLEAN, t UTF8String DEFAULT \"ID:  none\", ..., u IA5String (SIZE(0..8)) DEFAULT \"km   h\", p PrintableString DEFAULT \"a  b c\" }")
     # an OPTIONAL SEQUENCE whose own components are OPTIONAL (ProtobufEq of two present values is not `==`)
@@ -177,6 +184,15 @@ def sets():
              + ", ".join(f"e{i:02d} [{10 + i}] INTEGER (0..255) OPTIONAL" for i in range(14)) + " }")
     d.append("SetBig2 ::= SET { " + ", ".join(f"r{t} [{t}] BOOLEAN" for t in roots[:4]) + ", ..., "
              + ", ".join(f"e{i:02d} [{40 - i}] INTEGER (0..255) OPTIONAL" for i in range(18)) + " }")
+    # 16 root components with explicit tags out of order and 17 additions (33 components: beyond the length up
+    # to which a general-purpose sort falls back to insertion sort): the additions stay in textual order
+    order = [7, 2, 15, 0, 9, 4, 12, 1, 14, 6, 3, 11, 8, 13, 5, 10]
+    roots = ", ".join(f"r{t:02d} [{t}] BOOLEAN" for t in order)
+    # (every addition has its own range: the descriptor shows a permutation)
+    adds = ", ".join(f"e{i:02d} [{100 + i}] INTEGER (0..{i + 1}) OPTIONAL" for i in range(17))
+    d.append(f"SetHuge ::= SET {{ {roots}, ..., {adds} }}")
+    adds = ", ".join(f"e{i:02d} [{140 - i}] INTEGER (0..{i + 1}) OPTIONAL" for i in range(24))
+    d.append(f"SetHuge2 ::= SET {{ {roots}, ..., {adds} }}")
     return module("ZooSet", "\n".join(d))
 
 
@@ -236,6 +252,10 @@ def versions():
     d.append("EnuNumV1 ::= ENUMERATED { low(10), high(20), top(30), ... }")
     d.append("EnuNumV2 ::= ENUMERATED { low(10), high(20), top(30), ..., mid(15) }")
     d.append("EnuNumV3 ::= ENUMERATED { low(10), high(20), top(30), ..., mid(15), bottom(1) }")
+    # V1 ends in the marker, a mandatory root component of every kind in front of it; V2 appends two additions
+    for i, k in enumerate(ROOT_KINDS):
+        d.append(f"RootV{i}V1 ::= SEQUENCE {{ id INTEGER (0..255), x {k}, ... }}")
+        d.append(f"RootV{i}V2 ::= SEQUENCE {{ id INTEGER (0..255), x {k}, ..., note UTF8String OPTIONAL, level INTEGER (0..7) OPTIONAL }}")
     d.append("SelV1 ::= CHOICE { code [5] INTEGER (0..255), ... }")
     d.append("SelV2 ::= CHOICE { code [5] INTEGER (0..255), ..., label [1] UTF8String (SIZE(0..5)) }")
     d.append("HoldV1 ::= SET { selector SelV1, level [3] INTEGER (0..255) }")
